@@ -204,8 +204,32 @@ macro_rules! analog_support {
 }
 analog_support!(Group41Var1, "g41v1");
 analog_support!(Group41Var2, "g41v2");
-analog_support!(Group41Var3, "g41v3");
-analog_support!(Group41Var4, "g41v4");
+impl ControlSupport<Group41Var3> for Ctl {
+    fn select(&mut self, c: Group41Var3, index: u16, _db: &mut DatabaseHandle) -> CommandStatus {
+        let s = self.0.next_status();
+        self.0.push(format!("cb select g41v3 {index} f{} -> {}", c.value.to_bits(), s.as_u8()));
+        s
+    }
+    fn operate(&mut self, c: Group41Var3, index: u16, t: OperateType, _db: &mut DatabaseHandle) -> CommandStatus {
+        let s = self.0.next_status();
+        self.0.push(format!("cb operate {} g41v3 {index} f{} -> {}", op_name(t), c.value.to_bits(), s.as_u8()));
+        s
+    }
+}
+impl ControlSupport<Group41Var4> for Ctl {
+    fn select(&mut self, c: Group41Var4, index: u16, _db: &mut DatabaseHandle) -> CommandStatus {
+        let s = self.0.next_status();
+        let b = c.value.to_bits();
+        self.0.push(format!("cb select g41v4 {index} d{}:{} -> {}", b & 0xFFFF_FFFF, b >> 32, s.as_u8()));
+        s
+    }
+    fn operate(&mut self, c: Group41Var4, index: u16, t: OperateType, _db: &mut DatabaseHandle) -> CommandStatus {
+        let s = self.0.next_status();
+        let b = c.value.to_bits();
+        self.0.push(format!("cb operate {} g41v4 {index} d{}:{} -> {}", op_name(t), b & 0xFFFF_FFFF, b >> 32, s.as_u8()));
+        s
+    }
+}
 
 // ------------------------------------------------------------------------------------------
 
@@ -297,6 +321,7 @@ pub struct Station {
     asm: Vec<u8>,
     asm_dst: u16,
     _task: tokio::task::JoinHandle<()>,
+    panicked: bool,
 }
 
 impl Station {
@@ -317,7 +342,7 @@ impl Station {
                 sh.push(format!("session {reason}"));
             }
         });
-        let mut s = Station { shared, handle, peer: None, pipe_tx, tseq: 0, rxbuf: Vec::new(), asm: Vec::new(), asm_dst: 0, _task: task };
+        let mut s = Station { shared, handle, peer: None, pipe_tx, tseq: 0, rxbuf: Vec::new(), asm: Vec::new(), asm_dst: 0, _task: task, panicked: false };
         s.connect();
         s
     }
@@ -361,6 +386,10 @@ impl Station {
             if changed { idle = 0 } else { idle += 1 }
         }
         let mut out: Vec<String> = std::mem::take(&mut *self.shared.log.lock().unwrap());
+        if !self.panicked && self._task.is_finished() {
+            self.panicked = true;
+            out.push("panic".to_string());
+        }
         if total >= 20000 {
             out.push("stall".to_string());
         }
@@ -473,6 +502,7 @@ impl Station {
 }
 
 pub fn run(ops: &str, out: &mut dyn Write, mon: &mut dyn Write) {
+    std::panic::set_hook(Box::new(|_| {}));
     let mut stats = Stats::default();
     for (hdr, lines) in split_cases(ops) {
         writeln!(out, "{hdr}").unwrap();
@@ -484,6 +514,8 @@ pub fn run(ops: &str, out: &mut dyn Write, mon: &mut dyn Write) {
         let mut trace: Vec<(String, Vec<String>)> = Vec::new();
         rt.block_on(async {
             let mut st: Option<Station> = None;
+            let mut last_sol: u8 = 0;
+            let mut last_uns: u8 = 0;
             for line in &lines {
                 let ws: Vec<&str> = line.split_whitespace().collect();
                 if ws.is_empty() || ws[0].starts_with('@') {
@@ -502,6 +534,7 @@ pub fn run(ops: &str, out: &mut dyn Write, mon: &mut dyn Write) {
                         let s = st.as_mut().unwrap();
                         let ok = s.add_point(ws[0], ws[1].parse().unwrap(), ws[2].parse().unwrap());
                         outs.push(format!("add {}", ok as u8));
+                        outs.extend(s.quiesce().await);
                     }
                     "txn" => {
                         let s = st.as_mut().unwrap();
@@ -511,6 +544,15 @@ pub fn run(ops: &str, out: &mut dyn Write, mon: &mut dyn Write) {
                     "rx" => {
                         let s = st.as_mut().unwrap();
                         s.rx(ws[1].parse().unwrap(), ws[2].parse().unwrap(), &unhex(ws[3])).await;
+                        outs = s.quiesce().await;
+                    }
+                    "cfm" => {
+                        let s = st.as_mut().unwrap();
+                        let uns = ws[1] == "uns";
+                        let delta: u8 = ws[2].parse().unwrap();
+                        let seq = ((if uns { last_uns } else { last_sol }) + delta) & 0x0F;
+                        let f = [0xC0 | if uns { 0x10 } else { 0 } | seq, 0x00];
+                        s.rx(ws[3].parse().unwrap(), OUTSTATION, &f).await;
                         outs = s.quiesce().await;
                     }
                     "raw" => {
@@ -545,6 +587,14 @@ pub fn run(ops: &str, out: &mut dyn Write, mon: &mut dyn Write) {
                 let mut all = cbs;
                 all.extend(txs);
                 for o in &all {
+                    if let Some(rest) = o.strip_prefix("tx ") {
+                        let b = unhex(rest.split_whitespace().nth(1).unwrap_or("-"));
+                        if b.len() >= 2 && b[1] == 0x81 {
+                            last_sol = b[0] & 0x0F;
+                        } else if b.len() >= 2 && b[1] == 0x82 {
+                            last_uns = b[0] & 0x0F;
+                        }
+                    }
                     writeln!(out, "{o}").unwrap();
                     stats.hit(&format!("out_{}", o.split_whitespace().next().unwrap_or("?")));
                 }
